@@ -257,3 +257,40 @@ def half_integer_sampler(lo=-20, hi=20):
         return float(rng.uniform(lo, hi))
 
     return f
+
+
+def empty_test_polarity(node):
+    """`node` as a test for "this array / list has no elements", in any of the usual spellings:
+         x.size == 0, len(x) == 0, x.shape[0] == 0, not x.size, not len(x), x.size < 1, len(x) > 0, x.size != 0, x.size, len(x) ...
+       -> True: the expression is true exactly when the container is empty; False: true exactly when it is not; None: not such a test"""
+    n_, neg = node, False
+    while isinstance(n_, ast.UnaryOp) and isinstance(n_.op, ast.Not):
+        n_, neg = n_.operand, not neg
+
+    def counted(e):
+        if isinstance(e, ast.Attribute) and e.attr == "size":
+            return True
+        if isinstance(e, ast.Call) and isinstance(e.func, ast.Name) and e.func.id == "len" and len(e.args) == 1:
+            return True
+        if isinstance(e, ast.Subscript) and isinstance(e.value, ast.Attribute) and e.value.attr == "shape" and isinstance(e.slice, ast.Constant) and e.slice.value == 0:
+            return True
+        return False
+
+    res = None
+    if counted(n_):
+        res = False
+    elif isinstance(n_, ast.Compare) and len(n_.ops) == 1 and isinstance(n_.comparators[0], ast.Constant) and counted(n_.left):
+        c, op = n_.comparators[0].value, n_.ops[0]
+        if c == 0 and isinstance(op, ast.Eq):
+            res = True
+        elif c == 0 and isinstance(op, (ast.NotEq, ast.Gt)):
+            res = False
+        elif c == 1 and isinstance(op, ast.Lt):
+            res = True
+        elif c == 1 and isinstance(op, ast.GtE):
+            res = False
+        elif c == 0 and isinstance(op, ast.LtE):
+            res = True
+    if res is None:
+        return None
+    return res != neg
